@@ -1,8 +1,8 @@
 CHECKS = [
     entry("C17", "cluster",
-          technique="property-based testing (rapid): metamorphic relation over peer-list permutations (exhaustive for n<=5) on the real DeterministicSharder; in-process multi-node cluster of real refinery apps",
+          technique="property-based testing (rapid): metamorphic relation over peer-list permutations (exhaustive for n<=5) on the real DeterministicSharder; in-process 2-3 node cluster of real refinery apps judged against a harness-owned reference sharder",
           quick=dict(checks=1500, budget_s=45),
           thorough=dict(checks=6000, shards=16, budget_s=420),
-          level_text="Generated peer lists (1..12 URLs) x all permutations (n<=5; sampled above) x every member as own address x generated trace ids: owner identical and a member. Exploration; the permutation dimension is exhaustive for n<=5 per generated list.",
-          level_note="Function level uses MockPeers as membership source."),
+          level_text="Generated peer lists (1..12 URLs) x all permutations (n<=5; sampled above) x every member as own address x generated trace ids, plus the FilePeers shape list+[self] and the start-then-UpdatePeers path: owner identical and a member, MyShard().Equals(owner) exactly on the owner. About 1 case in 60 (quick) / 1 in 13 (thorough) is a 2-3 node in-process cluster (FilePeers on loopback, per-node file orders, real routers/collectors/peer transmissions): every accepted span comes out upstream exactly once, on the reference owner, after <=1 peer hand-over, never addressed to the forwarding node. Exploration; the permutation dimension is exhaustive for n<=5 per generated list.",
+          level_note="Function level uses MockPeers as membership source. Cluster part is wall-clock based: spans not seen by the deadline, port collisions between parallel shards (detected through a per-case version tag) and peer send retries make a case inconclusive, never a violation. Lists that differ in the multiplicity of an address (list vs list+[self]) are counted as don't-care: the partition count follows the list length."),
 ]
